@@ -110,6 +110,14 @@ int include_parse(AsmContext *asm_context)
 printf("including file %s.\n", token);
 #endif
 
+  if (asm_context->include_count >= MAX_NESTED_INCLUDES)
+  {
+    print_error(asm_context, "Too many nested includes");
+    return -1;
+  }
+
+  asm_context->include_count++;
+
   write_list_file = asm_context->write_list_file;
   asm_context->write_list_file = 0;
 
@@ -173,6 +181,7 @@ printf("including file %s.\n", token);
   asm_context->tokens.filename = oldname;
   asm_context->tokens.in = oldfp;
   asm_context->write_list_file = write_list_file;
+  asm_context->include_count--;
 
   return ret;
 }
